@@ -45,7 +45,7 @@ REGRESSIONS = (
 )
 
 # quick tier: how many of the TLC-emitted bounded-queue scripts are replayed
-QUEUE_SCRIPTS_QUICK = 72
+QUEUE_SCRIPTS_QUICK = 200
 
 
 def model_checks(ctx, quick):
@@ -68,18 +68,22 @@ def model_checks(ctx, quick):
     # prints the tester scripts that force the queue.Full branch
     qruns = [("ListenerHttpQueue.cfg", 1,
               "max_ind_queue_size=1, callback may be held: all histories of "
-              "4 requests over the queue alphabet (6)")]
+              "4 requests over the plain queue alphabet (5)")]
     if not quick:
+        qruns.append(("ListenerHttpQueueWait.cfg", 1,
+                      "max_ind_queue_size=1, callback may be held: all "
+                      "histories of 4 requests over the queue alphabet with "
+                      "a request that makes the server wait (4)"))
         qruns.append(("ListenerHttpQueue2.cfg", 2,
                       "max_ind_queue_size=2, callback may be held: all "
-                      "histories of 5 requests over the small queue "
-                      "alphabet (4)"))
+                      "histories of 5 requests over the tiny queue "
+                      "alphabet (3)"))
     scripts = []
     for cfg, qcap, label in qruns:
         qr = ctx.tlc("ListenerHttp", cfg, timeout=3000, label=label)
         seen = set()
         for p in qr.printed("SCR"):
-            steps = tuple((op, tuple(t)) for op, t in vlib.unset(p[1]))
+            steps = tuple((op, tuple(t), n) for op, t, n in vlib.unset(p[1]))
             if steps not in seen:
                 seen.add(steps)
                 scripts.append((qcap, steps))
@@ -142,7 +146,7 @@ def plan_queue(ctx, quick, scripts):
     if quick and len(scripts) > QUEUE_SCRIPTS_QUICK:
         plain = [x for x in scripts
                  if all(op != "req" or H.cls_of(t)["clen"] == "ok"
-                        for op, t in x[1])]
+                        for op, t, _ in x[1])]
         other = [x for x in scripts if x not in set(plain)]
         n1 = min(len(plain), QUEUE_SCRIPTS_QUICK * 2 // 3)
         pick = ctx.rng.sample(plain, n1)
@@ -152,7 +156,7 @@ def plan_queue(ctx, quick, scripts):
     hs = []
     for qcap, steps in scripts:
         st = H.normalise_script(
-            [(op, H.cls_of(t)) for op, t in steps])
+            [(op, H.cls_of(t), n) for op, t, n in steps])
         for _ in range(1 if quick else 3):
             hs.append(("tlc-queue-script", {"qcap": qcap, "steps": st}))
     return hs
@@ -307,18 +311,17 @@ def judge(ctx, kinds, hists):
         if ev["env"]["qcap"] < 100:
             what += ("; listener with max_ind_queue_size=%d, tester script: "
                      "%s" % (ev["env"]["qcap"], " ".join(
-                         op if op != "req" else
+                         op if op in ("block", "release") else
+                         "peerclose(%d)" % n if op == "peerclose" else
                          "req(%s)" % (",".join("%s=%s" % (d, c[d]) for d in
                                                H.deviations(c)) or "VALID")
-                         for op, c in h.steps)))
+                         for op, c, n in h.steps)))
         # the script up to and including the failing request
-        nreq, upto = 0, []
-        for op, c in h.steps:
-            if op == "req":
-                nreq += 1
-                if nreq > i + 1:
-                    break
-            upto.append([op, c])
+        upto = []
+        for op, c, n in h.steps:
+            if op == "req" and n > i + 1:
+                break
+            upto.append([op, c, n])
         ctx.report(sig, what, {
             "source": kind,
             "qcap": h.box_qcap, "steps": upto,
@@ -437,7 +440,7 @@ def run(ctx):
 def replay(rep):
     case = rep["case"]
     qcap = case.get("qcap", 0)
-    steps = [(op, c) for op, c in case["steps"]] if case.get("steps") else None
+    steps = case.get("steps") or None
     box = H.Box(qcap).start()
     try:
         reqs = []
